@@ -144,6 +144,7 @@ theorem RxSO3Log_tangent_identity (eps : ℝ) (heps : 0 < eps) (X : ℝ → DVec
     have e1 : (fun t => nth (logF .RxSO3 eps (X t)) 3) = fun t => Real.log (nth (X t) 4) := by
       funext t; simp [logF, RxSO3Log, rxso3.toList, toRx, Vec3.toList]
     rw [e1]
+    have hs : nth (X 0) 4 ≠ 0 := ne_of_gt hs
     refine (h4.log hs).congr_deriv ?_
     simp [liftG, logF, RxSO3Log, JlInvMat, rxso3JlInv, rxso3.toList, toRx, torx, Vec3.toList, Quat.toList, DMat.block,
       DMat.hcat, DMat.vcat, DMat.zero, DVec.zero, Mat3.toRows, DMat.mulVec, ddot_cons]
